@@ -226,6 +226,9 @@ def convertX (tbl : List OptionRow) (dflt : Nat → Val DT) :
 
 end codecs
 
+/-- a date-time codec that refuses every text (for statements that do not depend on it) -/
+def nullCodec : DTCodec Unit := { parse := fun _ => none, render := fun _ => [] }
+
 /-! ## `check_option_values` (base.py:120-189) -/
 
 /-- value of the option with cgi name `name` -/
@@ -245,13 +248,13 @@ def utcMethods : List Bytes :=
 def eventTypes : List String := ["ping", "scte35"]
 
 /-- the position of an injected error must be `int`, `datetime` or `time` -/
-def posOk : Pos IsoClass → Bool
+def positionOk : Pos IsoClass → Bool
   | .num _ => true
   | .at .duration => false
   | .at _ => true
   | .nothing => false
 
-def spanOk (v : Val IsoClass) : Bool :=
+def timeSpanOk (v : Val IsoClass) : Bool :=
   match v with
   | .int z => decide (z.natAbs ≤ maxTimeSpan.natAbs)
   | _ => true
@@ -279,6 +282,23 @@ def listItems (v : Val IsoClass) : List Bytes :=
   | .list l => l
   | _ => []
 
+/-- value of `<event>__<key>` -/
+def eventField (tbl : List OptionRow) (o : Nat → Val IsoClass) (name : Bytes) (key : String) : Val IsoClass :=
+  field tbl o (String.ofList (name.map fun b => Char.ofNat b.toNat) ++ "__" ++ key)
+
+def intIs (v : Val IsoClass) (p : Int → Bool) : Bool :=
+  match v with
+  | .int z => p z
+  | _ => true
+
+/-- the checks on a selected event type (base.py:168-185): count, timescale, duration,
+emsg version -/
+def eventParamsOk (tbl : List OptionRow) (o : Nat → Val IsoClass) (name : Bytes) : Bool :=
+  intIs (eventField tbl o name "count") (fun z => decide (z ≤ maxEventCount)) &&
+  intIs (eventField tbl o name "timescale") (fun z => decide (1 ≤ z)) &&
+  intIs (eventField tbl o name "duration") (fun z => decide (0 ≤ z)) &&
+  intIs (eventField tbl o name "version") (fun z => decide (z = 0 ∨ z = 1))
+
 /-- `availabilityStartTime`: `None` → the default, a special name stays, an aware
 date-time must have a usable offset, a naive one becomes UTC, anything else is refused -/
 def astCheck (dfltAst : Val IsoClass) (v : Val IsoClass) : Except Exc (Val IsoClass) :=
@@ -290,40 +310,50 @@ def astCheck (dfltAst : Val IsoClass) (v : Val IsoClass) : Except Exc (Val IsoCl
   | .dt .naive => .ok (.dt (.aware true))
   | _ => .error .valueError
 
+/-- every selected DRM name is a `DrmSystem` -/
+def drmNamesOk (tbl : List OptionRow) (o : Nat → Val IsoClass) : Bool :=
+  match field tbl o "drm" with
+  | .drm l => l.all (fun e => drmNames.contains e.1)
+  | _ => true
+
+/-- `utcMethod` is `None` or one of the choices -/
+def utcMethodOk (tbl : List OptionRow) (o : Nat → Val IsoClass) : Bool :=
+  match field tbl o "time" with
+  | .str s => utcMethods.contains s
+  | _ => true
+
+def errorPositions (tbl : List OptionRow) (o : Nat → Val IsoClass) : List (Pos IsoClass) :=
+  errPositions (field tbl o "aerr") ++ errPositions (field tbl o "merr") ++
+    errPositions (field tbl o "terr") ++ errPositions (field tbl o "verr")
+
+def eventsOk (tbl : List OptionRow) (o : Nat → Val IsoClass) : Bool :=
+  (listItems (field tbl o "events")).all fun name =>
+    !(eventTypes.map ascii).contains name || eventParamsOk tbl o name
+
+def spansOk (tbl : List OptionRow) (o : Nat → Val IsoClass) : Bool :=
+  timeSpanOk (field tbl o "drift") && timeSpanOk (field tbl o "leeway") &&
+    timeSpanOk (field tbl o "mup") && timeSpanOk (field tbl o "depth")
+
+def setStart (tbl : List OptionRow) (o : Nat → Val IsoClass) (ast : Val IsoClass) : Nat → Val IsoClass :=
+  match findRow tbl (ascii "start") with
+  | some i => setField o i ast
+  | none => o
+
 /-- `check_option_values`; every refusal is a `ValueError` -/
-def checkOptionValues (tbl : List OptionRow) (dfltAst : Val IsoClass) (o : Nat → Val IsoClass) :
+def checkValues (tbl : List OptionRow) (dfltAst : Val IsoClass) (o : Nat → Val IsoClass) :
     Except Exc (Nat → Val IsoClass) :=
-  -- DRM names
-  let drmOk := match field tbl o "drm" with
-    | .drm l => l.all (fun e => drmNames.contains e.1)
-    | _ => true
-  if !drmOk then .error .valueError else
-  -- UTC timing method
-  let utcOk := match field tbl o "time" with
-    | .str s => utcMethods.contains s
-    | _ => true
-  if !utcOk then .error .valueError else
+  if !drmNamesOk tbl o then .error .valueError else
+  if !utcMethodOk tbl o then .error .valueError else
   match astCheck dfltAst (field tbl o "start") with
   | .error e => .error e
   | .ok ast =>
-    let o1 := match findRow tbl (ascii "start") with
-      | some i => setField o i ast
-      | none => o
-    let positions := errPositions (field tbl o "aerr") ++ errPositions (field tbl o "merr") ++
-      errPositions (field tbl o "terr") ++ errPositions (field tbl o "verr")
     match (listItems (field tbl o "vcorrupt")).mapM (corruptItem C) with
     | .error e => .error e
     | .ok cps =>
-      if !(positions ++ cps).all posOk then .error .valueError else
-      let evOk := (listItems (field tbl o "events")).all fun name =>
-        !(eventTypes.map ascii).contains name ||
-          (match field tbl o (String.ofList (name.map fun b => Char.ofNat b.toNat) ++ "__count") with
-           | .int z => decide (z ≤ maxEventCount)
-           | _ => true)
-      if !evOk then .error .valueError else
-      if !(spanOk (field tbl o "drift") && spanOk (field tbl o "leeway") &&
-           spanOk (field tbl o "mup") && spanOk (field tbl o "depth")) then .error .valueError
-      else .ok o1
+      if !(errorPositions tbl o ++ cps).all positionOk then .error .valueError else
+      if !eventsOk tbl o then .error .valueError else
+      if !spansOk tbl o then .error .valueError
+      else .ok (setStart tbl o ast)
 
 /-- `RequestHandlerBase.calculate_options` without restrictions (as `UTCTimeHandler`,
 `LiveMedia`, `ServeMps*` call it): convert, then check -/
@@ -331,7 +361,7 @@ def calcOptions (tbl : List OptionRow) (dflt : Nat → Val IsoClass) (q : List (
     Except Exc (Nat → Val IsoClass) :=
   match convertX C tbl dflt q with
   | .error e => .error e
-  | .ok o => checkOptionValues C tbl (field tbl dflt "start") o
+  | .ok o => checkValues C tbl (field tbl dflt "start") o
 
 end check
 
